@@ -107,17 +107,16 @@ Definition guards0 (b : base) (te : Z * ev) : list rule :=
                     when (negb (lr_t r =? fst te)) 2033
         | None => [2032]
         end
-      else
-        (* a term that ends has had its promotion callback entered *)
-        when (io_flag x && ic_haspromote (cfg_of b i) && negb (io_promotes x =? io_terms x)) 2046
+      else []
   | ETrans i f to => when ((io_state (inst_of b i) =? stStopped) && negb (to =? stStopped)) 2040
   | EApiRet i call res err gid =>
       when (((call =? aStop) || (call =? aStopCtx)) && (res =? 0) && negb (io_state (inst_of b i) =? stStopped)) 2041
-  (* callbacks: one promotion per term, entered while the term is alive; a demotion only when one is owed;
-     the claim is raised only when no demotion is owed *)
+  (* callbacks: one promotion per term (its goroutine may be scheduled after a stop that lands at the very instant of the
+     promotion has ended the term: rules 2042/2046 of earlier versions were too strong); a demotion only when one is owed;
+     the claim is raised only when no callback is owed (2045, 2048); a term's demotion follows its promotion (2047) *)
   | EPromote i tok gid =>
       let x := inst_of b i in
-      when (negb (io_flag x)) 2042 ++ when (negb (io_promotes x <? io_terms x)) 2043
+      when (negb (io_promotes x <? io_terms x)) 2043
   | EDemote i gid => let x := inst_of b i in when (negb (io_demotes x <? io_ended x)) 2044
   | EExtPut key val rev => when (negb (rev =? b_seq b + 1)) 2050
   | EExtDel key rev => when (negb (rev =? b_seq b + 1)) 2050
@@ -129,7 +128,13 @@ Definition guards0 (b : base) (te : Z * ev) : list rule :=
    (an acquisition still in flight may complete; becomeLeader ignores it) *)
 Definition late_claim (b : base) (te : Z * ev) : list rule :=
   match snd te with
-  | EFlag i fl _ _ _ => when (zb fl && io_cancelled (inst_of b i)) 2034
+  | EFlag i fl _ _ _ =>
+      let x := inst_of b i in
+      when (zb fl && io_cancelled x) 2034 ++
+      (* rule 2048: a new term starts only when the promotion callbacks of the earlier terms have been entered *)
+      when (zb fl && ic_haspromote (cfg_of b i) && negb (io_promotes x =? io_terms x)) 2048
+  (* rule 2047: the demotion callback of a term is entered after its promotion callback *)
+  | EDemote i _ => let x := inst_of b i in when (ic_haspromote (cfg_of b i) && (io_promotes x <? io_ended x)) 2047
   | _ => []
   end.
 
